@@ -1,4 +1,6 @@
 """C15 — language-server diagnostics converge to a from-scratch workspace lint."""
+import re
+
 PID = "C15"
 LEVEL = "proof"
 REPLAY_OP = "lsp.history"
@@ -80,7 +82,7 @@ def gen_history(rng, k):
             events.append({"kind": "open", "file": rng.choice(live), "pauseMs": pause})
         elif r < 0.55 and live:
             f = rng.choice(live)
-            i = int(f.split("/")[0][1:])
+            i = int(re.search(r"f(\d+)", f.split("/")[-1]).group(1))    # p3/f3.rego, ignored/f3.rego, p3/f3_r.rego.bak
             imps = [j for j in range(n + 1) if j != i and rng.random() < 0.4]
             t = content(i, imps, rng.choice([0, 1, 2, 3]))
             events.append({"kind": "change", "file": f, "text": t, "pauseMs": pause})
